@@ -88,6 +88,15 @@ def predicate_text(fn, ctx):
         if len(call.args) < 4:
             raise _Undecided('selectop call shape')
         valnode = call.args[2]
+        # a local bound once (reference = Comparable(value)) stands for what it was bound to
+        for _ in range(3):
+            if isinstance(valnode, ast.Name) and valnode.id not in fn.params:
+                binds = ctx.res.local_bindings(fn).get(valnode.id, [])
+                vals = [b[1] for b in binds if b[0] == 'assign']
+                if len(vals) == 1 and len(binds) == 1:
+                    valnode = vals[0]
+                    continue
+            break
         # Comparable(x) is transparent for the predicate (the ordering is decided by C04)
         if isinstance(valnode, ast.Call) and norm(valnode.func) == 'Comparable' and len(valnode.args) == 1:
             valnode = valnode.args[0]
@@ -328,6 +337,8 @@ def run(ctx):
                          'depend on an earlier call (e.g. a program compiled for the same pattern with other flags is reused)' % _g, _n)
     if not _nm:
         rep.held('R13.10', ('petl.transform.selects', '*'), 'no module-level state is written', '', None)
+    rep.rule('R13.12', 'the reference values of a selector (value, minv, maxv, n ...) reach the predicate as the caller gave them: they are not re-bound before the predicate reads them')
+    ctx.attempt(r1312, ctx, rep)
     from .common import check_selector_truth as _seltruth
     rep.rule('R13.9', 'a field selector (name or position; 0 and \'\' are valid) is never tested for truth')
     ctx.floor('selector_functions', ctx.attempt(_seltruth, ctx, rep, 'R13.9', ctx.functions(
@@ -733,3 +744,41 @@ def r137(ctx, rep):
             rep.undecided('R13.7', fn, c, why, x)
     if n < 1:
         raise AnalysisError('anchor vanished: itersearch applies the pattern at %d sites' % n)
+
+
+# ------------------------------------------------------------------------- R13.12
+def r1312(ctx, rep):
+    """The documented predicate of selectin is `v in value` for the caller's `value`: re-binding the name to something made
+    from it (frozenset(value), tuple(value), value.lower()) changes which cells satisfy it (substring vs. element
+    membership, hashability of the cell) although the predicate still reads `v in value`."""
+    n = 0
+    for name in SELECTORS:
+        fn = ctx.project.modules['petl.transform.selects'].functions.get(name)
+        if fn is None:
+            continue
+        refs = [p for p in fn.posparams[2:] if p not in ('complement',)] if name != 'rowlenselect' else [p for p in fn.posparams[1:] if p != 'complement']
+        if not refs:
+            continue
+        n += 1
+        bad = []
+        for x in own_nodes(fn.node):
+            tg = []
+            if isinstance(x, ast.Assign):
+                for t in x.targets:
+                    tg.extend(y for y in ast.walk(t) if isinstance(y, ast.Name))
+            elif isinstance(x, (ast.AugAssign, ast.AnnAssign)) and isinstance(x.target, ast.Name):
+                tg.append(x.target)
+            for y in tg:
+                if y.id in refs:
+                    v = getattr(x, 'value', None)
+                    # Comparable(x) is transparent for the predicate (the ordering is decided under C04)
+                    if isinstance(x, ast.Assign) and isinstance(v, ast.Call) and isinstance(v.func, ast.Name) and \
+                            v.func.id == 'Comparable' and len(v.args) == 1 and norm(v.args[0]) == y.id:
+                        continue
+                    bad.append((x, y.id))
+        for x, r in bad:
+            rep.violated('R13.12', fn, norm(x)[:70], 'the reference value `%s` is re-bound before the predicate reads it: the documented '
+                         'predicate (%s) is about the value the caller passed' % (r, SELECTORS[name]), x)
+        if not bad:
+            rep.held('R13.12', fn, 'reference values %s not re-bound' % refs, '', fn.node)
+    ctx.floor('selectors_with_reference_values', n, 12)
